@@ -263,6 +263,55 @@ theorem C20_block_tiles (r : Rect) (hv : Valid r) :
   exact (C20_tiles_spec _ (by simp only [blockRect]; linarith) (by simp only [blockRect]; linarith)
     (by simp only [blockRect]; linarith) (by simp only [blockRect]; linarith)).1
 
+/-! ## the tile cache seen from `elevation` -/
+
+/-- **A tile is downloaded by `elevation` only if it is not already cached.**  `elevationC` is
+`elevation` with the cache directory threaded through its tile loop (`dem = get_tile(t)` per
+tile).  For every valid rectangle, every cache content and every tile content: the result is
+that of `elevation`; the downloads of the call are pairwise distinct and are exactly the tiles
+of the block (`get_tiles` of its bounds, cf. `C20_block_tiles`) that were **not** cached; the
+cache afterwards is the old one plus the tiles of the block. -/
+theorem C20_elevation_download_once (cache : List ℕ) (pix : Tile → ℕ → ℕ → ℤ) (r : Rect)
+    (hv : Valid r) :
+    (elevationC cache pix r).1 = elevation pix r ∧
+    (elevationC cache pix r).2.2.Nodup ∧
+    (∀ n, n ∈ (elevationC cache pix r).2.2 ↔
+      (∃ t ∈ getTiles (blockRect (rF r) (rL r) (cF r) (cL r)), tileId t = n) ∧ n ∉ cache) ∧
+    (∀ n, n ∈ (elevationC cache pix r).2.1 ↔
+      n ∈ cache ∨ ∃ t ∈ getTiles (blockRect (rF r) (rL r) (cF r) (cL r)), tileId t = n) := by
+  rw [elevationC_spec cache pix r hv]
+  obtain ⟨h1, h2, h3⟩ := C20_download_once cache
+    ((getTiles (blockRect (rF r) (rL r) (cF r) (cL r))).map tileId)
+  refine ⟨rfl, h1, fun n => ?_, fun n => ?_⟩
+  · rw [h2 n, List.mem_map]
+  · rw [h3 n, List.mem_map]
+
+/-- Any sequence of `elevation` calls on one cache directory (warm or cold): no tile is
+downloaded twice and no tile that was cached at the start is downloaded at all. -/
+theorem C20_calls_download_once (pix : Tile → ℕ → ℕ → ℤ) (rs : List Rect)
+    (hv : ∀ r ∈ rs, Valid r) (cache : List ℕ) :
+    (runCalls pix cache rs).2.Nodup ∧ (∀ n ∈ (runCalls pix cache rs).2, n ∉ cache) ∧
+    (∀ n ∈ cache, n ∈ (runCalls pix cache rs).1) := by
+  induction rs generalizing cache with
+  | nil => simp [runCalls]
+  | cons r rs ih =>
+    obtain ⟨-, a2, a3, a4⟩ := C20_elevation_download_once cache pix r (hv r List.mem_cons_self)
+    obtain ⟨b1, b2, b3⟩ := ih (fun r' h => hv r' (List.mem_cons_of_mem _ h)) (elevationC cache pix r).2.1
+    simp only [runCalls]
+    refine ⟨?_, ?_, ?_⟩
+    · rw [List.nodup_append]
+      refine ⟨a2, b1, ?_⟩
+      intro x hx y hy hxy
+      subst hxy
+      exact b2 x hy ((a4 x).mpr (Or.inr ((a3 x).mp hx).1))
+    · intro n hn
+      rcases List.mem_append.mp hn with h | h
+      · exact ((a3 n).mp h).2
+      · intro hc
+        exact b2 n h ((a4 n).mpr (Or.inl hc))
+    · intro n hn
+      exact b3 n ((a4 n).mpr (Or.inl hn))
+
 /-! ## non-vacuity of the easy part -/
 
 /-- a rectangle straddling the corner of four tiles at 40° N, 140° W, unaligned with the grid -/
@@ -272,6 +321,10 @@ example : Valid rect4 := by constructor <;> norm_num [rect4]
 #guard (getTiles rect4).length = 4
 #guard (nativeGrids rect4).1.length = 4 ∧ (nativeGrids rect4).2.length = 4
 #guard (runRequests [1, 2] [3, 1, 3, 4, 2]).2 = [3, 4]
+-- elevation over the four-tile corner on a cache holding w180n90 (id 0): downloads ids 1, 9, 10;
+-- a second call downloads nothing
+#guard (elevationC [0] synthPix rect4).2.2 = [1, 9, 10]
+#guard (runCalls synthPix [0] [rect4, rect4]).2 = [1, 9, 10]
 -- the mosaic over the four tiles equals the synthetic pixel formula at the global lattice cell
 #guard (match elevation synthPix rect4 with
   | .ok (lats, lons, E) => lats.length = 4 ∧ lons.length = 4 ∧
@@ -282,3 +335,4 @@ example : Valid rect4 := by constructor <;> norm_num [rect4]
 
 assert_axioms C20_grid_consecutive C20_nonempty C20_covers C20_tight C20_tiles_spec
   C20_native_eq_grids C20_download_iff_not_cached C20_download_once C20_pixel_identity C20_block_tiles
+  C20_elevation_download_once C20_calls_download_once
